@@ -59,7 +59,8 @@ def run(ctx):
   ctx.rule = ("_check_sdp_from_eigen: random spectra of length 1..8 spanning 1e-12..1e12 with the most negative eigenvalue at "
               "{0.5, 0.99, 1.01, 2} x tol of the boundary, default and explicit tol (incl. negative): outcome compared "
               "bit-exactly with the model on binary64. components_from_metric: symmetric matrices of size 1..8 (PD, PSD of "
-              "every rank, diagonal, indefinite, non-symmetric): exception class exact, L^T L vs M on exact rationals. "
+              "every rank, diagonal, indefinite, non-symmetric): exception class exact, L^T L vs M on exact rationals; with an explicit tol: diagonal and dense matrices "
+              "with the same spectrum, most negative eigenvalue at 0.5 x / 2 x tol. "
               "_auto_select_init: exhaustive for n_features, n_samples, n_components, n_classes <= 6. initialisers: "
               "identity / covariance (Penrose equations against the exact covariance of the distinct points) / random "
               "(reproducible, SPD by exact LDL^T) / array (shape, symmetry, PSD, strict-PD checks) and transformation inits.")
@@ -146,6 +147,35 @@ def run(ctx):
     recs.append(dict(kind='cfm', M=M.tolist(), L=L.tolist(), mkind=kind))
     if not np.allclose(L.T.dot(L), M, rtol=0, atol=1e-8 * np.abs(M).max() + 1e-300):
       ctx.fail_input('components_from_metric', 'L^T L differs from M', inp, observed=L.tolist())
+  # ---- 3b. components_from_metric with the caller's tolerance: diagonal and dense matrices with the same spectrum
+  for i in range(240 if thorough else 60):
+    d = int(rng.integers(2, 7))
+    t = float(rng.choice([1e-2, 1e-3, 1e-6]))
+    f = float(rng.choice([0.5, 2.0]))
+    w = np.abs(rng.standard_normal(d)) + 0.5
+    w[int(rng.integers(0, d))] = -t * f
+    for shape in ('diagonal', 'dense'):
+      if shape == 'diagonal':
+        M = np.diag(w)
+      else:
+        Qm, _ = np.linalg.qr(rng.standard_normal((d, d)))
+        M = (Qm * w).dot(Qm.T)
+        M = (M + M.T) / 2
+      oc, L = outcome(lambda: components_from_metric(M.copy(), tol=t))
+      ctx.count('components_from_metric_tol', 1)
+      ctx.hist('cfm_tol.case', '%s, most negative eigenvalue = -%g tol' % (shape, f))
+      inp = dict(shape=shape, M=M.tolist(), tol=t, spectrum=w.tolist())
+      if f > 1:
+        if oc != 'NonPSDError':
+          ctx.fail_input('components_from_metric_tol', '%s matrix with an eigenvalue below -tol (explicit tol) not rejected with NonPSDError' % shape,
+                         inp, observed=oc)
+      else:
+        Mc = M if shape == 'diagonal' else None
+        if oc != 'ok':
+          ctx.fail_input('components_from_metric_tol', '%s matrix whose negative eigenvalue is within the explicit tol is rejected' % shape,
+                         inp, observed=oc)
+        elif np.abs(L.T.dot(L) - M).max() > 2 * t:
+          ctx.fail_input('components_from_metric_tol', 'L^T L differs from M by more than the tolerance', inp, observed=L.tolist())
   # ---- 4. metric initialisers
   for rep in range(8 if thorough else 3):
     data = fits.make_data(rng)
